@@ -3,6 +3,7 @@ import ClairModel.Model.TarSeg
 import ClairModel.Model.RpmHeader
 import ClairModel.Model.RpmDb
 import ClairModel.Model.RpmFiles
+import ClairModel.Model.DockerLex
 
 /-!
   Model driver of property C06.  One answer line per operation line:
@@ -12,6 +13,7 @@ import ClairModel.Model.RpmFiles
     rpmhdr <hex>   rpm Header.Parse + Info.Load on the header blob
     bdb <hex>      rpm/bdb PackageDB.Parse + AllHeaders (size and byte sum of every header handed out)
     ndb <hex>      rpm/ndb PackageDB.Parse + AllHeaders
+    dlex <esc> <hex>  the Dockerfile lexer with escape rune <esc> (decimal code point), to the first EOF/Error item
 -/
 namespace Driver.C06
 open ClairModel
@@ -60,6 +62,21 @@ def renderDb (file : List UInt8) (r : Option (Option (List RpmDb.Rope))) : Strin
   | some none => "err:headers"
   | some (some rs) => renderRopes file rs
 
+def renderItem (i : DockerLex.Item) : String :=
+  let v := Driver.hex (i.val.flatMap DockerLex.encode)
+  match i.kind with
+  | .error => s!"E:{i.pos}"
+  | .eof => "Z"
+  | .comment => s!"C:{i.pos}:{v}"
+  | .instruction => s!"I:{i.pos}:{v}"
+  | .label => s!"L:{i.pos}:{v}"
+  | .arg => s!"A:{i.pos}:{v}"
+  | .env => s!"V:{i.pos}:{v}"
+
+def doDlex (esc : Nat) (bs : List UInt8) : String :=
+  let items := DockerLex.lex esc bs
+  s!"n={items.length} " ++ " ".intercalate (items.map renderItem)
+
 def stepLine (s : Unit) (l : String) : Unit × String :=
   if l == "reset" then (s, "ok") else
   match Driver.words l with
@@ -79,6 +96,10 @@ def stepLine (s : Unit) (l : String) : Unit × String :=
     match Driver.unhex h with
     | none => (s, "bad-op")
     | some bs => (s, renderDb bs (RpmDb.Ndb.allHeaders bs))
+  | ["dlex", e, h] =>
+    match e.toNat?, Driver.unhex h with
+    | some esc, some bs => (s, doDlex esc bs)
+    | _, _ => (s, "bad-op")
   | ["rpmhdr", h] =>
     match Driver.unhex h with
     | none => (s, "bad-op")
